@@ -201,3 +201,7 @@ def check_t5(ctx, tu, info):
                 ctx.ob('C02.T5', f, 'new nodes get their generation from getNextCounter()', ok,
                        detail='generation argument at %s comes from %s' % (f.nloc(n), src), where=f.nloc(n), key_detail='node generation')
     L.check_traversal(ctx, 'C02.T5', tu, info)
+    # the generation is drawn with `++currentCounter` on Threading::Atomic: under every threading policy the pre-increment must
+    # yield the *new* value (otherwise a node added during an invocation gets the generation that invocation already captured)
+    from .c20 import check_policy
+    check_policy(ctx, tu, rule='C02.T5', only=('operator++', 'operator--'))
